@@ -181,6 +181,9 @@ var c06Content = map[string][]prule{
 	"priority": {{"p", []string{"5", "c", "z", "r", "allow"}}, {"p", []string{"0", "c", "w", "r", "deny"}}},
 }
 
+var c06LastRes string // result of the last operation of the case run last
+var c06NoDirect bool  // the case contains a call outside the guards before its last one: no predicate at all
+
 func c06Case(c *Ctx, id string, conf machConf, u c06Uni, ops []mOp, guardLast bool) (finalKey string) {
 	spec, observe := c06Observers(u, nil)
 	var cs []string
@@ -205,7 +208,8 @@ func c06Case(c *Ctx, id string, conf machConf, u c06Uni, ops []mOp, guardLast bo
 		}
 		before = get()
 		res := m.apply(o)
-		observe(c, id, k, m, res, guardLast || k < len(ops)-1)
+		c06LastRes = res
+		observe(c, id, k, m, res, !c06NoDirect && (guardLast || k < len(ops)-1))
 		after := get()
 		// false <=> unchanged (inside the guard, for the calls the statement covers)
 		if k == len(ops)-1 && guardLast && o.Pt == u.Pt {
@@ -312,6 +316,16 @@ func init() {
 					ops := append(append([]mOp(nil), n.path...), o)
 					id := fmt.Sprintf("c06.%s.s%d.o%d", t.pt, nstates, ai)
 					key := c06Case(c, id, t.conf, u, ops, guard)
+					if (o.Kind == "updatemany" || o.Kind == "update") && c06LastRes == "ok0" && len(cur) > 0 {
+						// a REFUSED update leaves the listing as it was - and the index too: every listed
+						// rule must still be removable / updatable in its own slot afterwards
+						c06NoDirect = !guard
+						for xi, x := range cur {
+							c06Case(c, fmt.Sprintf("%s.rm%d", id, xi), t.conf, u, append(append([]mOp(nil), ops...), mOp{Kind: "remove", Pt: t.pt, R1: [][]string{x}}), guard)
+						}
+						c06NoDirect = false
+						c.Count("follow-up-after-refused-update")
+					}
 					if guard {
 						c.NonTrivial(t.pt + "|" + rulesKey(cur) + "|" + o.Sx())
 						if !seen[key] {
